@@ -1433,7 +1433,7 @@ class _Run:
                     names = []
                     for n in model.base.order:
                         _, d = table.root_of_unit(n)
-                        if d and vec_key(d) in reach:
+                        if vec_key(d) in reach:
                             names.append(n)
                     exp = {("set", tuple(sorted(names)))}
                 else:
